@@ -166,6 +166,13 @@ def add_pending(rng, x):
             x.phase_global(inplace=True)
         elif x.blocks:
             x.phase_sector(rng.choice(list(x.blocks)), inplace=True)
+    if x.blocks and rng.random() < 0.2:
+        # explicitly stored trivial signs are a legal state of the sign table ("trivial phases are not
+        # necessarily stored"), although the library's own operations never leave them behind
+        ph = dict(x.phases)
+        for s in rng.sample(list(x.blocks), rng.randint(1, min(2, len(x.blocks)))):
+            ph.setdefault(s, 1)
+        x.modify(phases=ph)
     return x
 
 
